@@ -164,7 +164,14 @@ def run_property(spec: PropertySpec, tier: str, seed: int, reg: Registry) -> Run
     # 1. lemmas
     for lname in spec.lemmas:
         lem = reg.lemmas[lname]
-        for ob in lem.obligations():
+        try:
+            obs = lem.obligations()
+        except Exception as e:
+            # a lemma stated over expressions read from the real code cannot be built (the code left the translatable subset):
+            # undecided, never a violation
+            run.verdicts.append(smt.Verdict(f'lemma::{lname}', 'unknown', 'none', 0.0, None, f'lemma cannot be stated: {type(e).__name__}: {e}', 0, '', 'valid'))
+            continue
+        for ob in obs:
             run.verdicts.append(smt.discharge(ob, run.timeout_ms))
     # 2. functions in full mode, one worker per (function, contract case); each worker explores, discharges and
     #    cross-checks its case against CPython, and returns plain data
